@@ -9,6 +9,16 @@ CFG = {
         "Leptos.Async.C10_settles_on_latest_history",
         "Leptos.Async.C10_awaiters_resumed",
         "Leptos.Async.C10_await_never_panics",
+        "Leptos.Async.C10_awaiter_parked_or_woken",
+        "Leptos.Async.C10_holder_woken_on_release",
+        "Leptos.Async.C10_writer_woken_when_guards_gone",
+        "Leptos.Async.C10_guard_held_witness",
+        "Leptos.Async.LOK.run",
+        "Leptos.Async.C10_no_awaiter_lost",
+        "Leptos.Async.C10_awaiter_parked_or_woken_strict",
+        "Leptos.Async.C10_awaiter_lost_after_manual_write_witness",
+        "Leptos.Async.C10_sync_access_blocks_witness",
+        "Leptos.Async.C10_sync_read_blocks_only_while_storing",
         "Leptos.Async.C10_sync_read_is_previous_or_none",
         "Leptos.Async.C10_notify_marks_every_subscriber",
         "Leptos.Async.C10_dependents_notified_each_transition",
@@ -40,7 +50,7 @@ CFG = {
     "harness_pkg": "hx-c10",
     "harness_bin": "c10",
     "n": {"quick": 12000, "thorough": 400000},
-    "trivial_tags": ["plain", "no-effect", "effect-d", "settled", "fresh-completion", "multi-source", "init-value", "resource", "once-resource",
+    "trivial_tags": ["converted-handle", "plain", "no-effect", "effect-d", "settled", "fresh-completion", "multi-source", "init-value", "resource", "once-resource",
                      "local-resource", "memo-source", "dynamic-reads"],
     "rule": "the real handles on the harness-controlled executor, fetcher futures = oneshot receivers resolved by `complete`: reactive_graph "
             "ArcAsyncDerived/AsyncDerived (sync and unsync constructors, with/without initial value; 1-2 source signals read directly or through one "
@@ -61,7 +71,15 @@ CFG = {
             "length 3 over {set, complete, bread, attach s, bdrop, poll 0/1} after 3 preambles (a reader has read / awaited the loaded value; both during "
             "the first load), each followed by one more reload after settling; local resources length <= 3, once-resources length <= 4 with bdrop; for resources every sequence of length <= 3 over {set, refetch, complete, poll 0/1, idle, mset, attach}, length 4-5 over {set, "
             "refetch, complete, poll 0, idle} (also after a first load); local resources length <= 3 over {set, refetch, complete, attach, bread, poll "
-            "0/1/2}, 4-5 over {set, complete, poll 0/1/2}; once-resources length <= 3 over {complete, attach, attach r, bread, poll 0/1/2, idle}; then "
+            "0/1/2}, 4-5 over {set, complete, poll 0/1/2}; once-resources length <= 3 over {complete, attach, attach r, bread, poll 0/1/2, idle}; READERS THAT HOLD A GUARD on the value (`attach h`: "
+            "`let g = d.by_ref().await; record(*g); release.await; drop(g)`; `hold`: the harness keeps a `read_untracked()` guard; `release` gives every "
+            "guard back) while sources change, reloads complete (the derived's task then waits in `value.write().await` with loading still on) and new "
+            "awaiters of every future kind (`.await`, `by_ref()`, `ready()`) arrive: every sequence of length <= 3 over {set, complete, attach v/b/r/h, "
+            "hold, release, poll 0/1, idle} on 6 handle flavours, length 4 over {set, complete, attach, attach h, hold, release, poll 0/1} on 2, length 4 "
+            "over {set, complete, attach v/b/r, release, poll 0/1} after 3 preambles in which a reader already holds the first value, each ending with "
+            "`release` and a settle suffix; HANDLE CONVERSIONS (cfg kind `k~chain`: `a` = .into() the Arc type, `r` = .into() the arena type, `c` = clone; "
+            "17 chains over Resource/ArcResource, LocalResource/ArcLocalResource, AsyncDerived/ArcAsyncDerived — OnceResource has no From impls): every "
+            "sequence of length <= 3 over {set, refetch, complete, attach, bread / mset, poll, idle} through the converted handle, also after a first load; then "
             "seeded random histories over all flavours (<= 30 ops, <= 4 awaiters); each followed by a settle suffix. Observable after every op: ready "
             "list (task kinds d/e/a/r/t), value and loading flag as the public API shows them, fetches started, inputs captured by the last fetch, what "
             "every awaiter resumed with, every run of the subscriber effect, the boundary's task-list length. Oracle (harness bookkeeping only): value "
@@ -78,11 +96,17 @@ CFG = {
     "modelled": ["spawn_derived! task loop (arc_async_derived.rs)", "ArcAsyncDerived::notify_subs / set_inner_value", "ArcAsyncDerivedInner as ReactiveNode "
                  "(mark_dirty, update_if_necessary; Notifying)", "AsyncDerivedFuture / AsyncDerivedReadyFuture / AsyncDerivedRefFuture poll", "Write/Set impl "
                  "(manual write = store + notify)", "channel.rs", "Effect::new task + EffectInner::update_if_necessary", "MemoInner mark_dirty/update_if_necessary "
-                 "(one memo over signals)", "ScopedFuture (observer re-installed on every poll: reads before and after an await are tracked)", "ArcAsyncDerived::try_read_untracked / AsyncDerivedFuture::poll under a SuspenseContext + the loop's suspense_ids (task ids held per fetch; "
+                 "(one memo over signals)", "ScopedFuture (observer re-installed on every poll: reads before and after an await are tracked)", "the value lock "
+                 "(async_lock::RwLock: read guards of by_ref()/read(), set_inner_value's `value.write().await` as a suspension point of the task, "
+                 "writer preference, the `(loading, lock.poll)` match of AsyncDerivedFuture / AsyncDerivedRefFuture incl. the `(false, Pending)` arm)", "ArcAsyncDerived::try_read_untracked / AsyncDerivedFuture::poll under a SuspenseContext + the loop's suspense_ids (task ids held per fetch; "
                  "not tied to the reader: known finding F-C10-3; the proposed repair hooks/fix-c10-3.patch is the model's `runF true`)",
                  "leptos_server ArcResource::new_with_options (source memo (refetch, source()), untracked fetcher, refetch)", "ArcOnceResource (one future; "
                  "Suspense handle only while there is no value)", "ArcLocalResource/LocalResource (Executor::tick() before every fetch; refetch = tracked signal)"],
     "assumptions": [
+        "guards on the value are driven on plain configurations only: no subscriber effect, a fetcher that reads nothing after its await, no manual "
+        "write in the same case, not on once / local resources (no by_ref()); while a guard is held, or the derived's task waits for the write lock, "
+        "the harness makes no synchronous access (val shows `~`; `bread`/`get`/`hold` are refused): such an access blocks the thread for good "
+        "(blocking_read_arc behind a waiting writer; blocking_write behind a reader) — reported as F-C10-4, not driven",
         "single-threaded executor (cross-thread races are C19)",
         "sources of the derived are plain signals, or one memo of all of them, read synchronously when the fetcher is called; the subscriber effect may read a second memo",
         "manual writes write Some(v) (a manual `None` with loading off makes `.await` panic on unwrap: outside the property)",
